@@ -361,7 +361,7 @@ func TestE2E(t *testing.T) {
 		t.Skip("VERIF_PROPERTY not set to an end-to-end property")
 	}
 	vh.Run(t, vh.Spec[Scenario]{
-		Name: "e2e", Gen: func(t *rapid.T) Scenario { return genScenario(t, prop) }, Run: runFor(prop), Quick: 24, Thorough: 250, Journal: true, ShrinkSeconds: 30,
+		Name: "e2e", Gen: func(t *rapid.T) Scenario { return genScenario(t, prop) }, Run: runFor(prop), Quick: 40, Thorough: 300, Journal: true, ShrinkSeconds: 30,
 		Rule: rule,
 	})
 }
